@@ -62,13 +62,29 @@ def plan(tier, seed):
                    "contexts": ["S", "CS", "SC", "C(S)C", "S=C", "C1SC1", "S.S"], "tables": [RELAXED, "default"],
                    "desc": "every organic-subset element in plain and bracket spellings (a bracket atom has no implicit H)"})
     tasks.append(("organic-brackets", ("orgbr",)))
+    from mc.oracles.misc import ELEMENTS
+    els = sorted(ELEMENTS)
+    scopes.append({"name": "every-element", "elements": len(els), "isotopes": ["", "13"], "chirality": ["", "@", "@@"],
+                   "H": ["", "H1", "H2"], "charges": ["", "+", "-", "+2"], "contexts": ["X", "CX", "C1XC1", "C(X)(F)Cl", "X=C", "X.X"],
+                   "desc": "every element of the periodic table in every bracket form (element tables, one- and two-letter "
+                           "symbols, 'H' itself)", "tables": [RELAXED]})
+    for k in range(0, len(els), 8):
+        tasks.append(("every-element", ("elements", els[k:k + 8])))
+    nd = 6 if thorough else 5
+    scopes.append({"name": "dot-inside-branch", "n_max": nd, "r_max": 1,
+                   "desc": "legal OpenSMILES the encoder documents as unsupported: one (thorough: up to two) tree edge(s) written as "
+                           "'.', incl. inside parenthesised branches.  The pinned encoder rejects the in-branch forms; a version that "
+                           "starts accepting them must round-trip them (judged only when accepted)", "tables": [RELAXED]})
+    for n in range(2, nd + 1):
+        for pi, par in enumerate(E2.parent_vectors(n)):
+            tasks.append(("dot-inside-branch", ("dots", n, pi, 2 if thorough else 1)))
     scopes.append({"name": "fragments", "desc": "every ordered pair/triple of the written forms with <= 3 atoms, r <= 1 over "
                                                 "{C,=,O,[O-]}, joined by '.'", "tables": ["default"]})
     for k in range(16):
         tasks.append(("fragments", ("frags", k, 16, thorough)))
     return {"scopes": scopes, "tasks": tasks,
             "bounds": {"topology": [nt, rt], "bond_orders_n": nb, "atoms_n": na},
-            "weight": lambda t: t[1][1] if t[1][0] in ("topo", "bonds", "atoms", "lenient") else 3}
+            "weight": lambda t: t[1][1] if t[1][0] in ("topo", "bonds", "atoms", "lenient", "dots") else 3}
 
 
 _SF = None
@@ -88,13 +104,13 @@ def use(table):
         _CUR[0] = key
 
 
-def check(smi, table, r, want_accept=False, tolerant=False):
+def check(smi, table, r, want_accept=False, tolerant=False, dot_in_branch=False):
     """one round trip under `table`; returns the SELFIES string or None"""
     use(table)
     r.evaluations += 1
     r.transitions += 1
     try:
-        ain = smiread.read_smiles(smi, tolerant=tolerant, ring_across_dot=False)
+        ain = smiread.read_smiles(smi, tolerant=tolerant, ring_across_dot=dot_in_branch, dot_in_branch=dot_in_branch)
     except smiread.SmiError as e:
         r.cov["generated form outside the reader's strict grammar"] += 1
         return None
@@ -191,6 +207,28 @@ def run(task):
                     smi = ctx % ((a,) * ctx.count("%s"))
                     last = (smi, check(smi, RELAXED, r, want_accept=True))
                     check(smi, "default", r)
+    elif kind == "dots":
+        _, n, pi, kmax = arg
+        par = list(E2.parent_vectors(n))[pi]
+        at = ["C"] * (n - 1) + ["O"]
+        for rings in E2.ring_sets(n, par, 1):
+            r.states += 1
+            for k in range(1, kmax + 1):
+                for cut in itertools.combinations(range(1, n), k):
+                    bt = [""] * n
+                    for i in cut:
+                        bt[i] = "."
+                    for sc in (("fresh", "two") if rings else ("fresh",)):
+                        smi = E2.write(n, par, rings, at, bt, scheme=sc)
+                        last = (smi, check(smi, RELAXED, r, dot_in_branch=True))
+    elif kind == "elements":
+        for el in arg[1]:
+            for iso, chir, h, chg in itertools.product(["", "13"], ["", "@", "@@"], ["", "H1", "H2"], ["", "+", "-", "+2"]):
+                a = "[%s%s%s%s%s]" % (iso, el, chir, h, chg)
+                r.states += 1
+                for ctx in ("%s", "C%s", "C1%sC1", "C(%s)(F)Cl", "%s=C", "%s.%s"):
+                    smi = ctx % ((a,) * ctx.count("%s"))
+                    last = (smi, check(smi, RELAXED, r, want_accept=True))
     elif kind == "bonds":
         _, n, pi = arg
         par = list(E2.parent_vectors(n))[pi]
